@@ -131,4 +131,185 @@ example : (evalTop fEnv (0, []) {}).1 = .formulaError (.user kValue) [(0, []), (
     (evalTop fEnv (0, []) {}).2.stack = [] ∧
     (evalTop fEnv (3, []) (evalTop fEnv (0, []) {}).2).1 = .ok (.int 7) := by decide
 
+/-! ### The limit is part of the definitions: histories change it, administrative calls do nothing
+
+`mx.set_recursion(k)` writes `CallStack.maxdepth` and nothing else (`Env.maxdepth`; no value is
+cleared).  The administrative calls of `Exec.Admin` – starting / stopping / reading / clearing a
+stack-trace session (which replaces the call stack object by one of the other class *with the
+same limit*), `get_recursion`, `get_error`, `get_traceback`, `set_recursion` to the value the
+limit has – are the identity on the state and on the definitions.  So every theorem above,
+being stated for an arbitrary `env`, holds for the limit in force at each evaluation of a
+history that raises and lowers the limit between evaluations; what has to be shown is that the
+state such a history leaves is one the theorems apply to. -/
+
+def withMaxdepth (env : Env) (k : Nat) : Env := { env with maxdepth := k }
+
+theorem denoteBody_limit_free (k : Nat) (f : Node → Res × Bool) :
+    ∀ p : Prog, denoteBody (withMaxdepth env k) f p = denoteBody env f p := by
+  intro p
+  induction p with
+  | ret v => rfl
+  | raise e => rfl
+  | reraise e => rfl
+  | read a r kk ih => simp only [denoteBody]; exact ih _
+  | call n kk ih =>
+    simp only [denoteBody]
+    have : calleeAt (withMaxdepth env k) f n = calleeAt env f n := rfl
+    rw [this, ih]
+
+theorem denoteN_limit_free (k : Nat) :
+    ∀ d n, denoteN (withMaxdepth env k) inp d n = denoteN env inp d n := by
+  intro d
+  induction d with
+  | zero => intro n; rfl
+  | succ d ih =>
+    intro n
+    have hf : denoteN (withMaxdepth env k) inp d = denoteN env inp d := funext ih
+    simp only [denoteN]
+    rw [hf, denoteBody_limit_free]
+    rfl
+
+/-- **The specification does not mention the limit**: the uncached value of an element is the
+same under every recursion limit. -/
+theorem spec_ignores_limit (k : Nat) (n : Node) (r : Res) :
+    Den (withMaxdepth env k) inp n r ↔ Den env inp n r := by
+  constructor
+  · rintro ⟨d, h⟩; exact ⟨d, by rw [← denoteN_limit_free]; exact h⟩
+  · rintro ⟨d, h⟩; exact ⟨d, by rw [denoteN_limit_free]; exact h⟩
+
+/-- **Changing the limit needs no clearing**: values held under one limit are correct under any
+other. -/
+theorem held_values_valid_under_any_limit (k : Nat) (s : St) (hg : Good env inp s) :
+    Good (withMaxdepth env k) inp s :=
+  ⟨fun n v hc hl => (spec_ignores_limit env inp k n _).mpr (hg.sound n v hc hl),
+   fun n v hc hi => hg.inputsHeld n v hc hi⟩
+
+/-- operations of a history that also configures the limit and makes administrative calls -/
+inductive LOp
+  | eval (n : Node)
+  | setLimit (k : Nat)
+  | admin (a : Admin)
+
+def lstep : Env × St → LOp → Env × St
+  | (env, s), .eval n => (env, (evalTop env n s).2)
+  | (env, s), .setLimit k => (withMaxdepth env k, s)
+  | (env, s), .admin a => (env, s.admin a)
+
+def lrun (st : Env × St) (ops : List LOp) : Env × St := ops.foldl lstep st
+
+/-- **Administrative calls are semantic no-ops**: definitions (the limit included) and state
+are literally unchanged, so whatever is evaluated next behaves as if the call had not been made. -/
+theorem admin_changes_nothing (st : Env × St) (a : Admin) : lstep st (.admin a) = st := rfl
+
+/-- the limit in force is the one configured last -/
+def lastLimit (k0 : Nat) : List LOp → Nat
+  | [] => k0
+  | .setLimit k :: ops => lastLimit k ops
+  | _ :: ops => lastLimit k0 ops
+
+theorem limit_is_last_configured (st : Env × St) (ops : List LOp) :
+    (lrun st ops).1.maxdepth = lastLimit st.1.maxdepth ops := by
+  induction ops generalizing st with
+  | nil => rfl
+  | cons op rest ih =>
+    obtain ⟨env, s⟩ := st
+    cases op with
+    | eval n => exact ih _
+    | setLimit k => exact ih _
+    | admin a => exact ih _
+
+theorem evalTop_hit_sticky (n : Node) (s : St) (h : s.hit = true) : (evalTop env n s).2.hit = true := by
+  unfold evalTop
+  split
+  · exact h
+  · have hok := runN_ok env (fun _ => none) (env.maxdepth + 1) n s
+      (fun h0 => by rw [h] at h0; cases h0) (fun h0 => by rw [h] at h0; cases h0)
+    have := hok.1 h
+    generalize runN env (env.maxdepth + 1) n s = p at this
+    obtain ⟨r, s1⟩ := p
+    cases r <;> exact this
+
+theorem lstep_hit_sticky (st : Env × St) (op : LOp) (h : st.2.hit = true) : (lstep st op).2.hit = true := by
+  obtain ⟨env, s⟩ := st
+  cases op with
+  | eval n => exact evalTop_hit_sticky env n s h
+  | setLimit k => exact h
+  | admin a => exact h
+
+theorem lrun_hit_sticky (ops : List LOp) (st : Env × St) (h : st.2.hit = true) : (lrun st ops).2.hit = true := by
+  induction ops generalizing st with
+  | nil => exact h
+  | cons op rest ih => exact ih _ (lstep_hit_sticky st op h)
+
+/-- **A history that raises and lowers the limit between evaluations and makes administrative
+calls leaves a consistent, retryable state** (partial: `LimitNeverCaught` – the sticky flag is
+still down at the end, so no evaluation of the history handled a depth error): every held value
+is the spec's under the limit now in force, and the executor is idle. -/
+theorem limit_history_consistent_partial (ops : List LOp) (st : Env × St)
+    (hg : Good st.1 inp st.2) (hq : Quiescent st.2) (h0 : st.2.hit = false)
+    (hend : (lrun st ops).2.hit = false) :
+    Good (lrun st ops).1 inp (lrun st ops).2 ∧ Quiescent (lrun st ops).2 := by
+  induction ops generalizing st with
+  | nil => exact ⟨hg, hq⟩
+  | cons op rest ih =>
+    have hmid : (lstep st op).2.hit = false := by
+      cases h : (lstep st op).2.hit with
+      | false => rfl
+      | true =>
+        have := lrun_hit_sticky rest (lstep st op) h
+        simp only [lrun, List.foldl] at hend this
+        rw [this] at hend; cases hend
+    refine ih (lstep st op) ?_ ?_ hmid hend
+    · obtain ⟨env, s⟩ := st
+      cases op with
+      | eval n => exact (C01.eval_value_is_denotation_partial env inp n s hg h0 hmid).2.2
+      | setLimit k => exact held_values_valid_under_any_limit env inp k s hg
+      | admin a => exact hg
+    · obtain ⟨env, s⟩ := st
+      cases op with
+      | eval n => exact evalTop_quiescent env n s hq
+      | setLimit k => exact hq
+      | admin a => exact hq
+
+/-- …hence **after any such history a chain that stays within the limit configured last
+evaluates, and returns the spec's value** – whatever limits were in force before and whatever
+administrative calls were made. -/
+theorem within_last_limit_evaluates_partial (ops : List LOp) (st : Env × St)
+    (hg : Good st.1 inp st.2) (hq : Quiescent st.2) (h0 : st.2.hit = false)
+    (hend : (lrun st ops).2.hit = false) (n : Node) (r : Res)
+    (hd : denoteN (lrun st ops).1 inp (lastLimit st.1.maxdepth ops + 1) n = (r, false)) :
+    (evalTop (lrun st ops).1 n (lrun st ops).2).2.hit = false ∧
+    (∀ v, r = .ok v → (evalTop (lrun st ops).1 n (lrun st ops).2).1 = .ok v) := by
+  obtain ⟨hg', _⟩ := limit_history_consistent_partial inp ops st hg hq h0 hend
+  rw [← limit_is_last_configured] at hd
+  have := C01.eval_returns_denotation (lrun st ops).1 inp n (lrun st ops).2 r hg' hend hd
+  refine ⟨this.1, ?_⟩
+  intro v hv
+  subst hv
+  exact this.2.1 v rfl
+
+/-! Non-vacuity: `chain(x) = chain(x-1) + 1`, limit 3, a stack-trace session, then `chain(5)`:
+`DeepReferenceError` as before the session; nothing held; after raising the limit it evaluates. -/
+def lCells : CellId → Option Expr
+  | 0 => some (.ite (.lt (.lit 0) (.param 0)) (.add (.call 0 [.sub (.param 0) (.lit 1)]) (.lit 1)) (.lit 0))
+  | _ => none
+
+def lEnv : Env where
+  formula := fun n => match lCells n.1 with
+    | some e => formulaOf (fun c => (lCells c).map (fun _ => 1)) e n.2
+    | none => .raise (.user kName)
+  cached := fun _ => true
+  allowNone := fun _ => false
+  refs := fun _ => .none
+  maxdepth := 100
+
+def lOps : List LOp := [.setLimit 3, .admin .startTrace, .admin .getTrace, .admin .stopTrace]
+
+example : (lrun (lEnv, {}) lOps).1.maxdepth = 3 := by decide
+example : (evalTop (lrun (lEnv, {}) lOps).1 (0, [.int 5]) (lrun (lEnv, {}) lOps).2).1 =
+    .formulaError .deep [(0, [.int 5]), (0, [.int 4]), (0, [.int 3]), (0, [.int 2])] := by decide
+example : (evalTop (lrun (lEnv, {}) lOps).1 (0, [.int 5]) (lrun (lEnv, {}) lOps).2).2.data = [] := by decide
+example : (evalTop (lrun (lEnv, {}) (lOps ++ [.eval (0, [.int 5]), .setLimit 9])).1 (0, [.int 5])
+    (lrun (lEnv, {}) (lOps ++ [.eval (0, [.int 5]), .setLimit 9])).2).1 = .ok (.int 5) := by decide
+
 end MxModel.C05
